@@ -324,6 +324,9 @@ pub fn run_history(tr: &Tracer, run: i64, ops: &[Value], sched: Option<&Vec<i64>
     let init = geti(first, "a");
     tr.emit(&json!({"e": "Begin", "run": run, "layer": "lin", "init": init, "directed": sched.is_some()}));
     let root = SharedObservable::new(Elem::new(init));
+    // a subscriber the main thread keeps for itself: at the end it tells whether the observable was
+    // really closed (a stuck thread with a closed observable lost a wake-up; with an open one, nobody closed)
+    let mut probe = root.subscribe();
     let mut hands: BTreeMap<i64, Hands> = BTreeMap::new();
     let mk = || Hands { guard: None, sub: None, owner: None, weak: None };
     hands.insert(1, mk());
@@ -505,9 +508,17 @@ pub fn run_history(tr: &Tracer, run: i64, ops: &[Value], sched: Option<&Vec<i64>
         e["run"] = json!(run);
         tr.emit(&e);
     }
+    let closed = {
+        use futures_core::Stream;
+        let f = Flag::new();
+        let w = waker_of(&f);
+        let mut cx = Context::from_waker(&w);
+        probe.reset();
+        matches!(Pin::new(&mut probe).poll_next(&mut cx), Poll::Ready(None))
+    };
     for t in &stuck {
         if *t > 0 {
-            tr.emit(&json!({"e": "Stuck", "run": run, "t": t}));
+            tr.emit(&json!({"e": "Stuck", "run": run, "t": t, "closed": closed}));
         } else {
             tr.emit(&json!({"e": "Hung", "run": run, "t": -t}));
         }
